@@ -5,7 +5,7 @@ ID = 'C09'
 LEVEL = 'exploration'
 RULE = ('ALL non-empty predicates over 1-3 two-valued variables and over the '
         'grids 0..3, -2..1, -4..-1, 0..7, 0..3x0..1, -2..1x0..1, -4..-1x0..1 '
-        '; plus, beyond the exhaustive scope, the cyclic-core instances and every fourth of 1600 (thorough 6400) seed-indexed 32-point predicates over five 0..1 variables and 400 (1600) over 0..3x0..3x0..1 (thorough: all 65535 over 4 two-valued variables, over 0..3x-2..1 and over -4..-1x-2..1; '
+        '; plus, beyond the exhaustive scope, the cyclic-core instances and every fourth of 1600 (thorough 24000) seed-indexed 32-point predicates over five 0..1 variables and 400 (6000) over 0..3x0..3x0..1, each also with the auxiliary parameters pre-declared in 2 (3) other orders (thorough: all 65535 over 4 two-valued variables, over 0..3x-2..1 and over -4..-1x-2..1; '
         'quick: 2048 of each, spread with stride 32 from a seed-selected offset, plus EVERY predicate of these three whose covering problem has a non-empty cyclic core) x care in {TRUE, type '
         'hints, f|g, a care set missing a point of f}; cover.minimize read '
         'out to a set of boxes and compared with brute force: only maximal '
@@ -58,12 +58,13 @@ def shards(tier, seed, spread=BLOCK, cyclic_grids=None, small=None,
     # points, kept if the covering problem has a non-empty cyclic core (and
     # every fourth one regardless)
     n_large = large if large is not None else (
-        6400 if tier == 'thorough' else 1600)
+        24000 if tier == 'thorough' else 1600)
     for g in ('b5', 'g444'):
         n = n_large if g == 'b5' else n_large // 4
         for i in range(0, n, 16):
             out.append(dict(grid=g, large=[i, i + 16, seed],
-                            backend='cudd', care='TRUE+hints'))
+                            backend='cudd', care='TRUE+hints',
+                            orders='all' if tier == 'thorough' else 'two'))
     return out
 
 
@@ -117,6 +118,13 @@ def cases(shard):
                 continue
             yield dict(grid=g, f=f, care=cm, care_name=cname,
                        backend=shard['backend'])
+            if 'large' in shard and cname == 'TRUE':
+                # larger instances also under other orders of the
+                # auxiliary parameters
+                for order in ((1, 3) if shard.get('orders') != 'all'
+                              else (1, 2, 3)):
+                    yield dict(grid=g, f=f, care=cm, care_name=cname,
+                               backend=shard['backend'], order=order)
 
 
 def _cyclic(grid, lo, hi):
@@ -139,7 +147,8 @@ def _cyclic(grid, lo, hi):
 def run_case(case, acc):
     import omega.symbolic.cover as cov
     ctx, f, care, names, sp = cv.build(case['grid'], case['f'], case['care'],
-                                       case['backend'])
+                                       case['backend'],
+                                       order=case.get('order', 0))
     dn, primes, k, covers, Fp, Cp = cv.reference(
         case['grid'], case['f'], case['care'])
     cover = cov.minimize(f, care, ctx)
